@@ -129,6 +129,15 @@ theorem Obl.iteRaise {α} {R : α → α → Prop} {c1 c2 : Prop} [Decidable c1]
   · exact Obl.raiseR
   exact hb
 
+/-- `if c then m else raise e` with value-dependent `c`: when both runs complete, both took `m` -/
+theorem Obl.iteElseRaise {α} {R : α → α → Prop} {c1 c2 : Prop} [Decidable c1] [Decidable c2] {e1 e2 : Err}
+    {b1 b2 : M α} (hb : Obl R b1 b2) : Obl R (if c1 then b1 else raise e1) (if c2 then b2 else raise e2) := by
+  split
+  · split
+    · exact hb
+    · exact Obl.raiseR
+  · exact Obl.raiseL
+
 /-! ## `Forall2` -/
 namespace Forall2
 variable {α β : Type}
